@@ -126,6 +126,78 @@ def run_geom(prop, shard, limit, ocaml_verdicts):
     return dict(cases=len(cases), agree=agree, problems=problems)
 
 
+def pair_cases(shard, limit):
+    """pair cases (C12: X records with their shape and product records) and particle pairs (C13: Z records)"""
+    out, cur = [], None
+    for l in open(shard):
+        t = l.rstrip("\n").split(" ")
+        k = t[0]
+        if k == "K":
+            cur = dict(spec=l[2:].rstrip("\n"), I=[], U=[], kind=None)
+        elif cur is None:
+            continue
+        elif k in ("P", "M"):
+            cur["kind"] = k
+        elif k == "I":
+            cur["I"].append(t[1:])
+        elif k == "U" and len(t) == 28:
+            cur["U"].append((t[1:10], t[10:19], t[19:28]))
+        elif k == "X" and len(t) == 22:
+            cur["X"] = t[1:]
+        elif k == "Z" and len(t) == 13:
+            cur["Z"] = t[1:]
+        elif k == "E":
+            if ("X" in cur and cur["kind"] in ("P", "M") and cur["I"]) or "Z" in cur:
+                out.append(cur)
+                if len(out) >= limit:
+                    break
+            cur = None
+    return out
+
+
+def run_pairs(prop, shard, limit, ocaml_verdicts):
+    cases = pair_cases(shard, limit)
+    if not cases:
+        return dict(cases=0, agree=0, problems=[])
+    body = [HEAD]
+    fo = lambda h: "None" if h in ("-", "N") else "(Some %s)" % flit(h)  # noqa
+    for i, c in enumerate(cases):
+        if "Z" in c:
+            z = c["Z"]
+            a = "(@mkLj NumF %s %s %s %s %s)" % (flit(z[0]), flit(z[1]), flit(z[2]), flit(z[3]), fo(z[4]))
+            b = "(@mkLj NumF %s %s %s %s %s)" % (flit(z[5]), flit(z[6]), flit(z[7]), flit(z[8]), fo(z[9]))
+            body.append("Definition r_%d := let '(x, y) := lj2_case %s %s in (fsame x %s, fsame y %s, true).\n" % (i, a, b, flit(z[10]), flit(z[11])))
+        else:
+            x = c["X"]
+            if c["kind"] == "P":
+                shape = "(@Poly NumF [" + "; ".join("@mkSeg NumF %s" % " ".join(flit(h) for h in it[:4]) for it in c["I"]) + "])"
+            else:
+                shape = "(@Mol NumF [" + "; ".join("@mkDisc NumF %s" % " ".join(flit(h) for h in it[:3]) for it in c["I"]) + "])"
+            want = lambda tok: "true" if tok == "1" else "false"  # noqa
+            muls = " && ".join("mul_case_ok %s %s %s" % (tf9(l), tf9(r), tf9(p)) for l, r, p in c["U"]) or "true"
+            body.append("Definition r_%d := let '(x, y) := pair_case %s %s %s in (Bool.eqb x %s, Bool.eqb y %s, %s).\n"
+                        % (i, shape, tf9(x[0:9]), tf9(x[9:18]), want(x[18]), want(x[19]), muls))
+    body.append("Eval vm_compute in [%s].\n" % "; ".join("r_%d" % i for i in range(len(cases))))
+    rc, out = coqc_eval(prop, "coqeval_pairs", "".join(body))
+    if rc != 0:
+        return dict(cases=len(cases), agree=0, problems=["coqc failed on the generated evaluation file: " + out[-600:]])
+    flat = re.sub(r"\s+", " ", out)
+    got = re.findall(r"\((true|false), (true|false), (true|false)\)", flat)
+    if len(got) != len(cases):
+        return dict(cases=len(cases), agree=0, problems=["could not read %d results from coqc (%d found)" % (len(cases), len(got))])
+    agree, problems = 0, []
+    for c, g in zip(cases, got):
+        verdict = ocaml_verdicts.get(c["spec"], "?")
+        if all(x == "true" for x in g):
+            agree += 1
+        elif verdict.startswith("OK") and "strength=bit" in verdict and "band=0" in verdict:
+            problems.append("the model evaluated inside Coq differs from the implementation on a case the extracted model "
+                            "matches exactly - the extraction path is suspect: %s" % c["spec"][:200])
+        elif verdict.startswith("OK"):
+            agree += 1   # a tolerance-band / rounding-level case: both routes see the same difference
+    return dict(cases=len(cases), agree=agree, problems=problems)
+
+
 def run_parse(prop, texts, impl_lines, limit):
     idx = [i for i in range(min(len(texts), len(impl_lines))) if impl_lines[i].split(" ")[0] in ("Ok", "Err")][:limit]
     if not idx:
